@@ -53,6 +53,11 @@ def gen_cases(rng, tier):
                     add("uidf\t%s\t%d\t%d\t%s" % (w, r, e, hexs(b"%d" % e)), kind="wf", uid=r, n=1, include=False)
                     add("uidf\t%s\t%d\t%d\t%s" % (w, r, e, hexs(b"%d,%d" % (e, r))), kind="wf", uid=r, n=2, include=True)
         add("full\t%d\t%d\t0\t%s" % (r, e1, hexs(b"only_root")), kind="chain", uid=r)
+        # the list changed between two evaluations in one address space (the argument sits at the same address inside the chain copy)
+        for w in (b"only_uid:", b"exclude_uid:"):
+            for A, B in ((b"%d,7" % r, b"%d,7" % (r ^ 1)), (b"%d" % (r ^ 1), b"%d" % r), (b"5,%d,6" % r, b"5,%d,6" % (r ^ 2))):
+                add("full\t%d\t%d\t0\t%s" % (r, e1, hexs(w + A)), kind="chain", uid=r)
+                add("full\t%d\t%d\t0\t%s" % (r, e1, hexs(w + B)), kind="chain", uid=r)
         # single numerals, near misses one by one (prefixes / suffixes / +-1 / 2^31 apart)
         for v in [r] + near_misses(r):
             for w in ("only", "exclude"):
@@ -174,9 +179,14 @@ def classify(run, res, cases, stream, exe=None):
     for (i, c, impl, sp) in res["spec_bad"]:
         f = c.split("\t")
         if f[0] == "full":
-            run.violation("spec:chain-of-one-uid-filter", "spec_violation", "the chain %r under real uid %s (effective %s) decided %s: not the membership of the real uid"
-                          % ((unhex(f[4]) or b"")[:120], f[1], f[2], impl.split("\t")[1]),
-                          {"stream": stream, "failing_input": c, "impl_output": impl, "model_output": res["model"][i], "cases": [c]})
+            seq = [c]
+            if "chain" not in shrunk:
+                shrunk.add("chain")
+                seq = reproduce(run, exe, cases, i)
+            run.violation("spec:chain-of-one-uid-filter", "spec_violation", "the chain %r under real uid %s (effective %s) decided %s: not the membership of the real uid%s"
+                          % ((unhex(f[4]) or b"")[:120], f[1], f[2], impl.split("\t")[1],
+                             " (as the last of %d calls in one process; the one before: %r)" % (len(seq), (unhex(seq[-2].split("\t")[4]) or b"")[:80]) if len(seq) > 1 else ""),
+                          {"stream": stream, "failing_input": c, "impl_output": impl, "model_output": res["model"][i], "cases": seq})
             nv += 1
             continue
         sig = "spec:%s-membership" % f[1]
